@@ -22,7 +22,7 @@ type SessModel struct {
 	Challenge string
 	URL       string // originally requested URL
 	Seq       int64
-	Chain     int // grant chain bound at login (-1 before)
+	Chain     int  // grant chain bound at login (-1 before)
 	Done      bool // a callback with this session's state has completed an exchange
 	DoneSeq   int64
 	Code      string
@@ -45,13 +45,13 @@ func (w *World) monitors(rec *CheckRec) {
 	if rec.Class == "panic" || rec.Class == "abandoned" {
 		return
 	}
-	w.monRedirect(rec) // C05 + C13 (+ registers the new session)
+	w.monRedirect(rec)  // C05 + C13 (+ registers the new session)
 	w.monTokenReqs(rec) // C04 + C11 (ledger side)
-	w.monStores(rec)   // C02 + C05 (store writes)
-	w.monOK(rec)       // C01 + C02 (headers) + C09
-	w.monLogout(rec)   // C09
-	w.monLeak(rec)     // C14
-	w.monRefresh(rec)  // C11
+	w.monStores(rec)    // C02 + C05 (store writes)
+	w.monOK(rec)        // C01 + C02 (headers) + C09
+	w.monLogout(rec)    // C09
+	w.monLeak(rec)      // C14
+	w.monRefresh(rec)   // C11
 }
 
 // ---- C15 -------------------------------------------------------------------------------------
